@@ -301,7 +301,7 @@ def skeletons(ctx, n, which):
         "process-inject execute": lambda: T("start", T("process_inject", T("execute", T("createthread_special", S("a")), T("rtlcreateuserthread")))),
         "empty block + option": lambda: T("start", T("http_config"), opt("pipename", "a")),
         "beacon gate": lambda: T("start", T("stage", T("beacon_gate", T("comms"), T("virtualalloc")), T("name", S("a")))),
-        "dns-beacon comment": lambda: T("start", T("dns_beacon", T("comment_dns_resolver", S("a")), T("beacon", S("b")))),
+        "dns-beacon": lambda: T("start", T("dns_beacon", T("dns_idle", S("a")), T("beacon", S("b")))),
         "http-stager": lambda: T("start", T("http_stager", T("uri_x64", S("a")), T("server", T("parameter", S("b"), S("c"))))),
         "code-signer + post-ex": lambda: T("start", T("code_signer", T("alias", S("a"))), T("post_ex", T("keylogger", S("b")))),
         "http-beacon": lambda: T("start", T("http_beacon", T("data_required_length", S("a")))),
@@ -311,7 +311,8 @@ def skeletons(ctx, n, which):
 
 SKELETONS_Q = ["option", "two options", "http-get uri+header", "http-get variant", "metadata transform", "server output", "stage strings",
                "process-inject execute", "empty block + option"]
-SKELETONS_T = SKELETONS_Q + ["beacon gate", "dns-beacon comment", "http-stager", "code-signer + post-ex", "http-beacon"]
+# (the `# dns_resolver` production is never lexed — '#' starts a comment — so no skeleton uses it)
+SKELETONS_T = SKELETONS_Q + ["beacon gate", "dns-beacon", "http-stager", "code-signer + post-ex", "http-beacon"]
 
 
 def tokenize(cells):
